@@ -733,36 +733,67 @@ def merge_measure_contents(notes, other, measure_start, measure_end=None):
     return result
 
 
+def range_label(direction):
+    """
+    The kind of numbered range ("wedge" or "dashes") that do_directions
+    starts for this direction, or None if it starts none.
+    """
+    text = direction.raw_text or direction.text
+    if text in PEDAL_DIRECTIONS or text in DYN_DIRECTIONS:
+        return None
+    if getattr(direction, "wedge", False):
+        return "wedge"
+    if isinstance(direction, score.DynamicDirection) and direction.end is not None:
+        return "dashes"
+    return None
+
+
 def do_directions(part, start, end, counter):
     result = []
 
     # ending directions
-    directions = part.iter_all(
-        score.DynamicDirection,
-        start.next,
-        end.next,
-        include_subclasses=True,
-        mode="ending",
+    ending_directions = list(
+        part.iter_all(
+            score.DynamicDirection,
+            start.next,
+            end.next,
+            include_subclasses=True,
+            mode="ending",
+        )
+    )
+    directions = list(
+        part.iter_all(score.Direction, start, end, include_subclasses=True)
     )
 
-    for direction in directions:
+    # a wedge or dashes number is taken when the range starts and given back
+    # when it stops, so the numbers have to be assigned in temporal order (a
+    # stop before a start at the same time), not all stops of the segment first
+    range_events = [(d.end.t, 0, i, d) for i, d in enumerate(ending_directions)] + [
+        (d.start.t, 1, i, d)
+        for i, d in enumerate(directions)
+        if range_label(d) is not None
+    ]
+    numbers = {}
+    for _, is_start, _, d in sorted(range_events, key=itemgetter(0, 1, 2)):
+        label = "wedge" if getattr(d, "wedge", False) else "dashes"
+        numbers[(is_start, d)] = range_number_from_counter(d, label, counter)
+
+    for direction in ending_directions:
         text = direction.raw_text or direction.text
         e0 = etree.Element("direction")
         e1 = etree.SubElement(e0, "direction-type")
+        number = numbers[(0, direction)]
 
         if getattr(direction, "wedge", False):
-            number = range_number_from_counter(direction, "wedge", counter)
             e2 = etree.SubElement(e1, "wedge", number="{}".format(number), type="stop")
 
         else:
-            number = range_number_from_counter(direction, "wedge", counter)
             etree.SubElement(e1, "dashes", number="{}".format(number), type="stop")
 
         elem = (direction.end.t, None, e0)
         result.append(elem)
 
     tempos = part.iter_all(score.Tempo, start, end)
-    directions = part.iter_all(score.Direction, start, end, include_subclasses=True)
 
     for tempo in tempos:
         # e0 = etree.Element('direction')
@@ -838,7 +869,7 @@ def do_directions(part, start, end, counter):
                 else:
                     wtype = "diminuendo"
 
-                number = range_number_from_counter(direction, "wedge", counter)
+                number = numbers[(1, direction)]
                 e2 = etree.SubElement(
                     e1, "wedge", number="{}".format(number), type=wtype
                 )
@@ -852,7 +883,7 @@ def do_directions(part, start, end, counter):
                     and direction.end is not None
                 ):
                     e3 = etree.SubElement(e0, "direction-type")
-                    number = range_number_from_counter(direction, "dashes", counter)
+                    number = numbers[(1, direction)]
                     etree.SubElement(
                         e3, "dashes", number="{}".format(number), type="start"
                     )
